@@ -88,11 +88,34 @@ def oracle(lines, out):
     eligible = []          # sequence numbers logged while the target was enabled
     written = []
     lost = 0
+    # Backlog clause ("... unless the backlog limit was exceeded"): the oracle keeps its OWN count of the bytes
+    # queued, from the log / write events alone (never the library's logt_memory_used).  In a steady history that
+    # ran to its end every accepted record has been written (fini drains; without fini the harness lets the logging
+    # thread run until it blocks), so accepted = written.  `queued` = bytes of the accepted records logged so far
+    # and not yet written.  One thread logs at a time, so between a `log` line and the return of that call the
+    # queue can only shrink: if the message is refused, the backlog was over the limit at the decision only if
+    # queued (at the `log` line) + its own record size > limit.  (Sound for every schedule; exact when the logging
+    # thread does not run inside the call.)
+    wset = set()
+    for l in out:
+        m = WRITE_RE.match(l)
+        if m:
+            wset.add(int(m.group(1)))
+    queued = 0
+    size = {}
     for i, l in enumerate(out):
         m = LOG_RE.match(l)
         if m:
             if m.group(3) == "1":
-                eligible.append(int(m.group(1)))
+                seq = int(m.group(1))
+                eligible.append(seq)
+                size[seq] = REC_SIZE + int(m.group(2)) + 1
+                if seq in wset:
+                    queued += size[seq]
+                elif st and queued + size[seq] <= BACKLOG_LIMIT:
+                    return ("message %d (%d bytes with its record) was never written although only %d bytes were "
+                            "queued when it was logged (backlog limit %d not exceeded)"
+                            % (seq, size[seq], queued, BACKLOG_LIMIT))
             continue
         m = WRITE_RE.match(l)
         if m:
@@ -106,6 +129,7 @@ def oracle(lines, out):
             if st and written and seq < written[-1]:
                 return "message %d written after message %d (producer order violated)" % (seq, written[-1])
             written.append(seq)
+            queued -= size.get(seq, 0)
             continue
         m = LOST_RE.match(l)
         if m:
@@ -132,6 +156,11 @@ def tags(lines, out):
     text = "\n".join(out)
     if "messages lost" in text:
         t.add("backlog-drop")
+        # a burst was dropped, the queue drained completely, and messages were logged afterwards
+        k = text.find("messages lost")
+        m = re.search(r"^step W .* q=0 mem=\d+ drop=0$", text[k:], re.M)
+        if m and re.search(r"^log \d+ \d+ e=1 t=1$", text[k + m.end():], re.M):
+            t.add("log-after-drained-burst")
     if "\nskip " in text:
         t.add("blocked-thread")
     if text.count("ret C fini") >= 2 and text.count("ret C init") >= 2:
@@ -158,6 +187,16 @@ def tags(lines, out):
 
 
 # ----------------------------------------------------------------------------- generators
+BACKLOG_LIMIT = 512000  # used by the oracle; set_consts() replaces both by the values regenerated from /repo
+REC_SIZE = 48
+
+
+def set_consts(path):
+    global BACKLOG_LIMIT, REC_SIZE
+    BACKLOG_LIMIT, REC_SIZE = gen_consts(path)
+    return BACKLOG_LIMIT, REC_SIZE
+
+
 def gen_consts(path):
     """(backlog limit, sizeof(struct qb_log_record)) as regenerated from /repo"""
     vals = {"LOGT_BACKLOG_LIMIT": 512000, "LOGT_REC_SIZE": 48}
@@ -252,8 +291,44 @@ def gen_conc(rng):
     return case_lines(cops, pops, sched)
 
 
+def gen_burst_drain(rng, limit=512000, rec=48):
+    """one or two bursts that exceed the backlog limit while the logging thread is starved (from a few to more than
+    a whole backlog of refused messages), then the logging thread drains the queue completely (or a random part
+    of it), then the producer logs further small and large messages into the empty / partly filled backlog under a
+    random schedule, then fini.  Everything logged while the queued bytes are below the limit must be written."""
+    cops = list(SETUP)
+    sched = PREFIX
+    for _ in range(rng.choice([1, 1, 1, 2])):
+        ln = rng.choice([ABS_MAX, ABS_MAX, ABS_MAX - rng.randrange(0, 200), rng.randrange(3000, ABS_MAX)])
+        fit = limit // (rec + ln + 1)
+        over = rng.choice([rng.randrange(1, 9), rng.randrange(9, fit), fit + rng.randrange(1, 40)])
+        burst = fit + over
+        cops += ["log:%d" % ln for _ in range(burst)]
+        sched += "C" * (4 * burst + rng.randrange(0, 4))
+        # drain: 3 steps of the logging thread per record (sem_wait, lock+pop+write, unlock)
+        if rng.random() < 0.7:
+            sched += "W" * (3 * fit + 12)                      # completely (blocked steps are skipped)
+        else:
+            sched += "W" * rng.randrange(0, 3 * fit)          # partly
+        more = rng.randrange(3, 40)
+        for _ in range(more):
+            cops.append("log:%d" % (rng.randrange(8, 200) if rng.random() < 0.8 else rng.choice([ln, msg_len(rng)])))
+            if rng.random() < 0.1:
+                cops.append(rng.choice(["ctl", "enable:1"]))
+        r = rng.random()
+        if r < 0.3:
+            sched += "C" * (4 * more + 8)                      # all of them before the logging thread runs again
+        else:
+            sched += rand_sched(rng, rng.randrange(2 * more, 8 * more + 20), "CW")
+    cops.append("fini")
+    sched += rand_sched(rng, rng.randrange(0, 30), "CW")
+    return case_lines(cops, [], sched, chunk=8)
+
+
 def gen_backlog(rng, limit=512000, rec=48):
     """enough large messages to exceed the backlog limit while the logging thread is starved"""
+    if rng.random() < 0.5:
+        return gen_burst_drain(rng, limit, rec)
     ln = rng.choice([ABS_MAX, ABS_MAX, ABS_MAX - rng.randrange(0, 200), rng.randrange(2500, ABS_MAX)])
     fit = limit // (rec + ln + 1)
     n1 = fit + rng.randrange(-3, 8)
